@@ -18,11 +18,17 @@ def datum_laws(P, sv, report):
     con = [p for p in sv.pts if p["con"]]
     if not con:
         return
+    if sv.dim in (1, 3):
+        du = [P["pts"][p["id"]]["u"] - p["u"] for p in con if p["id"] in P["pts"] and "u" in P["pts"][p["id"]]]
+        if abs(sum(du)) > 5e-6:
+            report("datum_translation", "height corrections of constrained points do not sum to zero: sum dU = %g" % sum(du))
+    if sv.dim == 1:
+        return
     de = [P["pts"][p["id"]]["e"] - p["e"] for p in con if p["id"] in P["pts"]]
     dn = [P["pts"][p["id"]]["n"] - p["n"] for p in con if p["id"] in P["pts"]]
     if abs(sum(de)) > 5e-6 or abs(sum(dn)) > 5e-6:
         report("datum_translation", "corrections of constrained points do not sum to zero: sum dE = %g, sum dN = %g" % (sum(de), sum(dn)))
-    if not any(o["t"] == "azimuth" for o in sv.obs):
+    if sv.t == "free2d" and not any(o["t"] == "azimuth" for o in sv.obs):
         ce = sum(p["e"] for p in con) / len(con)
         cn = sum(p["n"] for p in con) / len(con)
         mom = sum(-(p["n"] - cn) * a + (p["e"] - ce) * b for p, a, b in zip(con, de, dn))
@@ -33,8 +39,8 @@ def datum_laws(P, sv, report):
 def run(ctx):
     q = ctx.quick
     a = lsq.api_check(ctx, "C01:minnorm")
-    r, ss = sessions.generate(ctx, "c08", {"Templates": '{"free2d"}', "NoiseSet": NOISE, "MaxEdits": 2, "EditKinds": '{"ChangeDatum", "SetAlgorithm"}',
-                                           "KeepNet": 11 if q else 1, "KeepEdit": 2 if q else 1, "Seed": ctx.seed})
+    r, ss = sessions.generate(ctx, "c08", {"Templates": '{"free2d", "freevec3d", "freelev1d"}', "NoiseSet": NOISE, "MaxEdits": 2, "EditKinds": '{"ChangeDatum", "SetAlgorithm"}',
+                                           "KeepNet": 47 if q else 2, "KeepEdit": 2 if q else 1, "Seed": ctx.seed})
     ss = [s for s in ss if any(e["e"]["k"] == "ChangeDatum" for e in s["edits"])]
     ctx.note("SurveySession: %d datum sessions on the free network" % len(ss))
 
@@ -51,10 +57,10 @@ def run(ctx):
         ids = sorted(A["pts"])
         for i in range(len(ids)):
             for j in range(i + 1, len(ids)):
-                da = math.hypot(A["pts"][ids[i]]["e"] - A["pts"][ids[j]]["e"], A["pts"][ids[i]]["n"] - A["pts"][ids[j]]["n"])
-                db = math.hypot(B["pts"][ids[i]]["e"] - B["pts"][ids[j]]["e"], B["pts"][ids[i]]["n"] - B["pts"][ids[j]]["n"])
+                da = math.sqrt(sum((A["pts"][ids[i]].get(c, 0.0) - A["pts"][ids[j]].get(c, 0.0)) ** 2 for c in "enu"))
+                db = math.sqrt(sum((B["pts"][ids[i]].get(c, 0.0) - B["pts"][ids[j]].get(c, 0.0)) ** 2 for c in "enu"))
                 if abs(da - db) > 5e-6:
-                    ctx.violation("datum_shape|free2d", "session %d: distance %s-%s between adjusted points changes with the datum: %.7f -> %.7f" % (si, ids[i], ids[j], da, db),
+                    ctx.violation("datum_shape|" + sv.t, "session %d: distance %s-%s between adjusted points changes with the datum: %.7f -> %.7f" % (si, ids[i], ids[j], da, db),
                                   replay={"session": ss[si]})
     if ss:
         ctx.sample({"net": {k: ss[0]["net"][k] for k in ("t", "axes", "noise")}, "edits": [e["e"] for e in ss[0]["edits"]]})
